@@ -118,6 +118,11 @@ class Contract:
                 tb = tb.tb_next
             origin = last.tb_frame.f_code.co_filename if last is not None else ""
             in_checker = origin.startswith(_ROOT) or "/site-packages/z3/" in origin
+            if "/site-packages/jax/" in origin and "tree_util" not in origin:
+                # a JAX function that is not part of the dependency model (everything but jax.tree_util, which runs for
+                # real) was handed a proxy value and failed on it: a limit of the model (undecided), not an outcome of
+                # the code under verification
+                raise EngineLimit("unmodelled JAX function raised on a proxy value: %s" % (str(e)[:200],))
             if in_checker and not getattr(e, "__vt_documented__", False):
                 raise
             raise RealRaise(e)
